@@ -33,7 +33,9 @@ FILTER_SRC = {'none': '[]', 'skip': "[lambda s: 'skip' in s]",
 CONTAINERS = ('top', 'quote', 'list', 'mixed')
 SPELLINGS = ('atx', 'setext')
 MARKUPS = [('*{}*', '{}'), ('**{}**', '{}'), ('`{}`', '{}'), ('[{}](u)', '{}'), ('~~{}~~', '{}'),
-           ('{} *x* y', '{} x y'), ('_{}_ **b**', '{} b')]
+           ('{} *x* y', '{} x y'), ('_{}_ **b**', '{} b'),
+           # plain text that looks like markup again (escaped in the heading): brackets, emphasis
+           ('\\[{}\\]\\[b\\]', '[{}][b]'), ('\\[{}\\]', '[{}]'), ('\\*{}\\*', '*{}*')]
 
 
 def outlines(n):
@@ -171,6 +173,18 @@ def classify(entries, omit_title, err):
     return 'unclassified'
 
 
+def _shape(forest):
+    return [_shape(kids) for _t, kids in forest]
+
+
+def _texts(forest):
+    out = []
+    for t, kids in forest:
+        out.append(t)
+        out.extend(_texts(kids))
+    return out
+
+
 def quoted_setext(levels, spelling, container):
     """indices of the headings written as setext headings inside a block quote"""
     if spelling != 'setext' or container not in ('quote', 'mixed'):
@@ -200,6 +214,11 @@ def evaluate(x, levels, texts, depth, omit_title, fname, qs=frozenset()):
     if err is None and obs == exp:
         return None
     cls = classify(entries, omit_title, err)
+    if err is None and obs is not None and _shape(obs) == _shape(exp) and _texts(obs) != _texts(exp) \
+            and any(c in t for t in _texts(exp) for c in '*_[]`~<&\\'):
+        # same outline, different entry text, and the expected plain text looks like Markdown again:
+        # the TOC is built by re-tokenizing the collected plain text as Markdown
+        cls = 'toc-entry-text-reinterpreted-as-markdown'
     if qs:
         # label only: would the observation be explained if setext headings inside a block quote
         # were not headings (CommonMark says they are; Quote.read switches setext parsing off)?
